@@ -346,4 +346,32 @@ func multiLine(ss []sym, m gramResult) []sym {
 	return out
 }
 
+// semiNewline returns the layout in which every such ';' stays and is followed by a newline
+// (separator: separator_op linebreak; sequential_sep: ';' linebreak), or nil if there is none.
+func semiNewline(ss []sym, m gramResult) []sym {
+	nl := symTable["\n"]
+	var out []sym
+	changed := false
+	for i, s := range ss {
+		out = append(out, s)
+		if s.kind == kOp && s.op == ";" && m.sepAt[i] {
+			out = append(out, nl)
+			changed = true
+		}
+	}
+	if !changed {
+		return nil
+	}
+	return out
+}
+
+// semiNewlineFamily: the families that are also laid out with ';' + newline in the quick tier.
+func semiNewlineFamily(name string, thorough bool) bool {
+	switch name {
+	case "D0", "D1", "D2", "DH", "DC":
+		return true
+	}
+	return thorough
+}
+
 func joinTexts(ss []string) string { return strings.Join(ss, " ") }
